@@ -302,6 +302,24 @@ func vxH08NoLock(typ int, withAuth bool, withFlush bool) {
 	vxReach("done")
 }
 
+// twin of H08.nolock: the detection itself works — a call made with a library lock held is counted
+func vxH08NoLockTwin() {
+	k := vxNewKit(false, true, 8192, true)
+	conn := k.conn
+	fid := k.addFid(conn, 1, k.users.u0, 0)
+	req := k.newReq(conn, &Fcall{Type: Tstat, Tag: 7, Fid: 1, Afid: NOFID, Newfid: NOFID}, 512)
+	req.Fid = fid
+	conn.Lock()
+	k.ops.note("stat", req)
+	k.ops.FidDestroy(fid)
+	vxOpsFlush{k.ops}.Flush(req)
+	conn.Unlock()
+	if vxSymbolic() {
+		vxAssert(k.ops.lockViol == 3 && k.ops.calls[0].locks == 1, "held-lock-is-detected")
+	}
+	vxReach("twin")
+}
+
 // ---------------------------------------------------------------------------------------------------------------
 // H08.block
 func vxH08Block(n int, maxpend int, yield bool, oneSegment bool, staged bool) {
